@@ -49,7 +49,6 @@ theorem lapMatvec_congr (op : LapOp α) (a : Mat α) (x x' : Vec α) (h : ∀ j,
   by_cases hnm : op.normalized = true <;> by_cases hr : 0 < op.reg
   all_goals simp only [hnm, hr, if_true, if_false, Bool.false_eq_true]
   all_goals simp +contextual only [vget_tab, hi, if_true, h]
-  all_goals simp only [h _ hi]
 
 /-- **solver contract of `Spectral.fit`**: every column of `vectors` with its value is an eigenpair of the
     operator the solver was given (the model's `Laplacian`). -/
@@ -106,7 +105,9 @@ theorem spectralPost_rw_eigen (F : Fn α) (n : Nat) (hn : 0 < n) (a : Mat α) (r
     rw [mget_mkMat_lt _ hj hlen, mget_selectCols n vectors _ j c hj hlen, hc', vget_tab_lt _ hj]
   have hval : vget (spectralPost F n (lapInit F n a reg true) true nm values vectors).1 c = 1 - vget values c' := by
     simp only [spectralPost, if_true]
-    rw [vget_map_lt _ _ 0 c (by simpa using hlen), vget_map_lt _ _ 0 c hlen, hc']
+    rw [vget_map_lt _ _ 0 c (by simpa using hlen)]
+    change 1 - vget (List.map (vget values) ((argsort values).drop 1)) c = _
+    rw [vget_map_lt _ _ 0 c hlen, hc']
   rw [transApply_congr n a reg _ _ hvec i, key, hval, hvec i hi]
 
 /-- **Spectral, Laplacian decomposition.**  Under the solver contract, every returned pair is an eigenpair of the
@@ -138,5 +139,50 @@ theorem spectralPost_laplacian_eigen (F : Fn α) (n : Nat) (hn : 0 < n) (a : Mat
   have := hsol c' hidx i (by rw [hop]; exact hi)
   rw [hop, lapMatvec_plain F n hn a reg hreg _ i hi] at this
   rw [lapApply_congr n a reg _ _ hvec i hi, this, hval, hvec i hi, vget_tab_lt _ hi]
+
+end SkNet.Embedding
+
+namespace SkNet.Embedding
+
+variable {α : Type} [Field α] [LinearOrder α] [IsStrictOrderedRing α]
+
+/-- the values selected by `np.argsort(values)[1:]` are non-decreasing -/
+theorem sorted_selected (values : Vec α) :
+    (((argsort values).drop 1).map (vget values)).Pairwise (· ≤ ·) := by
+  rw [List.pairwise_map]
+  exact (sorted_argsortN values.length (vget values)).sublist (List.drop_sublist 1 _)
+
+/-- **documented order, Laplacian**: `eigenvalues_` is in increasing order -/
+theorem spectralPost_order_laplacian (F : Fn α) (n : Nat) (op : LapOp α) (nm : Bool) (values : Vec α) (vectors : Mat α) :
+    (spectralPost F n op false nm values vectors).1.Pairwise (· ≤ ·) := by
+  simp only [spectralPost, Bool.false_eq_true, if_false]
+  exact sorted_selected values
+
+/-- **documented order, random walk**: `eigenvalues_ = 1 − λ` is in decreasing order -/
+theorem spectralPost_order_rw (F : Fn α) (n : Nat) (op : LapOp α) (nm : Bool) (values : Vec α) (vectors : Mat α) :
+    (spectralPost F n op true nm values vectors).1.Pairwise (· ≥ ·) := by
+  simp only [spectralPost, if_true]
+  rw [List.pairwise_map]
+  exact (sorted_selected values).imp fun h => by linarith
+
+/-- **the first pair is skipped**: the solver value that is not returned is a smallest one, and the returned
+    indices together with it are exactly the positions of the solver output, each once. -/
+theorem argsort_skips_smallest (values : Vec α) (hv : 0 < values.length) :
+    ∃ i0, argsort values = i0 :: (argsort values).drop 1 ∧ i0 < values.length ∧
+      (∀ c ∈ (argsort values).drop 1, vget values i0 ≤ vget values c) ∧
+      (argsort values).Nodup ∧ ∀ x, x ∈ argsort values ↔ x < values.length := by
+  have hlen := length_argsortN values.length (vget values)
+  have hs := sorted_argsortN values.length (vget values)
+  have hnd := nodup_argsortN values.length (vget values)
+  unfold argsort
+  cases hl : argsortN values.length (vget values) with
+  | nil => rw [hl] at hlen; simp at hlen; omega
+  | cons i0 t =>
+    rw [hl] at hs hnd
+    refine ⟨i0, by simp, ?_, ?_, hnd, ?_⟩
+    · exact (mem_argsortN values.length (vget values) i0).mp (by rw [hl]; simp)
+    · intro c hc
+      exact (List.pairwise_cons.mp hs).1 c (by simpa using hc)
+    · intro x; rw [← hl]; exact mem_argsortN _ _ x
 
 end SkNet.Embedding
